@@ -373,15 +373,32 @@ def _create_isotopomer_reactions(
         )
         new_rate_name = rate_name + "__" + rate_suffix
 
-        replacements = dict(zip(base_substrates, new_substrates, strict=True)) | dict(
-            zip(base_products, new_products, strict=True)
-        )
+        # every occurrence of a compound in the rate arguments stands for one unit of
+        # its stoichiometry: the j-th occurrence is renamed to the j-th isotopomer of
+        # that compound (2 A -> B with args [A, A, k] reads A__0 and A__1). Labelled
+        # species that do not take part in the reaction are read through their total
+        # pool, as for unmapped reactions.
+        pools: defaultdict[str, list[str]] = defaultdict(list)
+        for base, new in zip(
+            base_substrates + base_products,
+            new_substrates + new_products,
+            strict=True,
+        ):
+            pools[base].append(new)
+        last: dict[str, str] = {}
+        new_args = []
+        for k in args:
+            if pool := pools.get(k):
+                last[k] = pool.pop(0)
+            new_args.append(
+                last.get(k, f"{k}__total" if k in label_variables else k)
+            )
 
         model.add_reaction(
             name=new_rate_name,
             fn=function,
             stoichiometry=new_stoichiometry,
-            args=[replacements.get(k, k) for k in args],
+            args=new_args,
         )
 
 
